@@ -205,9 +205,9 @@ func (l *Linter) lint(node ast.Node, ctx *context.Context) types.Type {
 	case *ast.SubroutineDeclaration:
 		return l.lintSubRoutineDeclaration(t, ctx)
 	case *ast.PenaltyboxDeclaration:
-		return l.lintPenaltyboxDeclaration(t)
+		return l.lintPenaltyboxDeclaration(t, ctx)
 	case *ast.RatecounterDeclaration:
-		return l.lintRatecounterDeclaration(t)
+		return l.lintRatecounterDeclaration(t, ctx)
 
 	// Statements
 	case *ast.BlockStatement:
